@@ -123,7 +123,8 @@ def tW : Bytes := [119]              -- "w"
 "B" (clean) subscribes to "w"; a retained PUBLISH on "a/b" from B (QoS 1); a
 QoS 2 exchange from B on "a/b"; A's socket closes (will to B); A reconnects
 (session present, subscriptions back), B publishes again; the in-process API
-subscribes to "a/#" and publishes; A disconnects. -/
+subscribes to "a/#" and publishes; A disconnects; a connection whose first
+packet is a PUBLISH is refused; an anonymous client (empty identifier) comes and goes. -/
 def history : List Ev :=
   [.first 1 (.connect (conn [65] false (some ⟨tW, [1], 1, false⟩))) true,
    .packet 1 (.subscribe 1 [(tAplus, 1), (tW, 2)]),
@@ -138,7 +139,10 @@ def history : List Ev :=
    .srvSub 1000 [97, 47, 35] 1,
    .srvPub { qos := 1, topic := tAB, payload := [10] },
    .packet 3 .disconnect,
-   .first 4 (.other 3) true]
+   .first 4 (.other 3) true,
+   .first 5 (.connect (conn [] true)) true,
+   .packet 5 (.subscribe 2 [(tW, 0)]),
+   .close 5]
 
 end Ex
 
@@ -163,7 +167,10 @@ example : (run {} Ex.history).2 =
      [.send 3 (.publish { qos := 1, topic := Ex.tAB, pktid := 2, payload := [10] }),
       .call 1000 { qos := 1, topic := Ex.tAB, pktid := 2, payload := [10] }],
      [.closed 3],
-     [.closed 4]] := by decide
+     [.closed 4],
+     [.send 5 (.connack false 0)],
+     [.send 5 (.suback 2 [0])],
+     [.closed 5]] := by decide
 
 example : R (run {} Ex.history).1 (specRun {} Ex.history).1 ∧
     AcceptsAll (specRun {} Ex.history).2 (run {} Ex.history).2 :=
